@@ -1,5 +1,6 @@
 import BevySyncModel.Proofs.CompOrder
 import BevySyncModel.Props.C02
+import BevySyncModel.Proofs.CompLive
 /-! # C10 — a single writer's updates are observed in order, never invented
 
 `shown` is a ghost log: every value a peer displays after a network apply is appended to it;
@@ -59,6 +60,24 @@ theorem C10_client_writer_ends_with_last (w : Nat) (x : Option V) (s : State V) 
       ∀ c ∈ (run ra false replace s as).clients, c.p.val = lastWritten x as := by
   have h := client_epoch_converges w x s as hn hw hc ha hq
   exact ⟨h.1, fun c hcm => (h.2.2.2.2.2 c hcm).1⟩
+
+/-- **"ending with the last one" without assuming the drain**: after any interleaving of a writer's epoch there is a
+continuation without writes — three fair rounds — after which the host and every client display the most recent write -/
+theorem C10_host_writer_ends_with_last_total (x : Option V) (s : State V) (as : List (Act V)) (hc : Clean x s)
+    (ha : ∀ a ∈ as, HostWrites a) :
+    ∃ more : List (Act V), (∀ a ∈ more, isWrite a = false) ∧
+      ∀ c ∈ (run ra false replace (run ra false replace s as) more).clients, c.p.val = lastWritten x as := by
+  obtain ⟨more, hw, hcl⟩ := host_epoch_total (ra := ra) x s as hc ha
+  exact ⟨more, hw, fun c hcm => (hcl.2.2.2.2.2 c hcm).1⟩
+
+theorem C10_client_writer_ends_with_last_total (w : Nat) (x : Option V) (s : State V) (as : List (Act V))
+    (hn : (s.clients.map (·.id)).Nodup) (hw : ∃ c ∈ s.clients, c.id = w) (hc : Clean x s)
+    (ha : ∀ a ∈ as, ClientWrites w a) :
+    ∃ more : List (Act V), (∀ a ∈ more, isWrite a = false) ∧
+      (run ra false replace (run ra false replace s as) more).host.val = lastWritten x as ∧
+      ∀ c ∈ (run ra false replace (run ra false replace s as) more).clients, c.p.val = lastWritten x as := by
+  obtain ⟨more, hq, hcl⟩ := client_epoch_total (ra := ra) w x s as hn hw hc ha
+  exact ⟨more, hq, hcl.1, fun c hcm => (hcl.2.2.2.2.2 c hcm).1⟩
 
 /-- non-vacuity, client writer: client 1 writes 1, 2, 3; the host polls two of them in one frame; client 2 sees what
 the host relays -/
